@@ -10,7 +10,7 @@ A_HB = 'A-HB: hashbrown 0.14.5 RawTable meets its documented contract for the AP
 A_SUB = 'A-SUB: contracts of the unsafe pointer layer L1 (set_head, touch_ptr, lru_ptr, mru_ptr, *_from_table, insert_into_table_with_hash, try_reallocate, reallocate, Entry::*, EntryPtr::*) are assumed by Verus (external_body); checked only boundedly by the Kani harnesses listed under bounded_obligations'
 A_DOUBLE = 'A-DOUBLE: the Kani table double /verif/hooks/table.rs implements A-HB (hand-written, reviewed against hashbrown source)'
 A_PURE = 'A-PURE: heap_size/mem_size are deterministic functions of the value; sizes change only inside mutate'
-A_EQ = 'A-EQ/A-BORROW/A-HASH: the user Eq, Borrow<Q> and Hash/BuildHasher are deterministic and mutually consistent (axioms matches_unique, matches_is_eq, hash_of)'
+A_EQ = 'A-EQ/A-BORROW/A-HASH: the user Eq on K is an equivalence relation (axioms keq_refl, keq_sym -- it is NOT assumed to be spec equality: Eq-equal keys may be different values with different size estimates), keys matched by one borrowed query are equivalent (matches_unique), hashing is a deterministic function of the key (hash_of)'
 A_SIZE = 'A-SIZE: estimates of simultaneously live values add up to <= usize::MAX (needed for entry_size additions and mutate pre-eviction additions)'
 A_CAP = 'A-CAP: 2*capacity() <= usize::MAX; A-HB-CAP: cap_for(n) >= n and cap_for(n) < max(2n, 8) (axiom cap_for_bounds in l2; the same bounds are PROVED for hashbrown\'s own capacity_to_buckets / bucket_mask_to_capacity, extracted from the registry source, in template hbcap; assumed: with_capacity sizes tables with these two functions)'
 A_ARITH = 'machine arithmetic: exact usize semantics in exec code (overflow obligations proved, not assumed); spec arithmetic is mathematical'
